@@ -293,6 +293,16 @@ static void pool_hook(void *cookie, const char *what)
 static void pool_start(void *c) { pool_hook(c, "start"); }
 static void pool_stop(void *c) { pool_hook(c, "stop"); }
 
+static int bulk_left, bulk_id;
+static void alog(const char *op, int o, long a, long b, long c, ns_t ts, long r);
+static void bulk_cb(void *c)
+{
+	if (--bulk_left == 0) {
+		O[K_TM][bulk_id].reg = 0;
+		alog("tm_unreg", bulk_id, 0, 0, 0, 0, 0);
+	}
+}
+
 static void ivthread_body(void *arg);
 
 static int sigpost_target;
@@ -539,10 +549,14 @@ static void do_op(struct op *p)
 			memrec_user_add(bulk, cnt * sizeof(*bulk), K_TM, id);
 		struct timespec now = iv_now;
 		ns_t x = now.tv_sec * NSEC + now.tv_nsec + (ns_t)p->a[2] * NSEC;
+		bulk_left = cnt;
+		bulk_id = id;
 		for (int i = 0; i < cnt; i++) {
 			IV_TIMER_INIT(&bulk[i]);
 			bulk[i].cookie = cookie_of(K_TM, id);
-			bulk[i].handler = ohtab[K_TM][id];
+			/* a[2] = 0: they all come due at once and are counted silently; the block is the
+			 * program's again when the last one has fired */
+			bulk[i].handler = p->a[2] ? ohtab[K_TM][id] : bulk_cb;
 			bulk[i].expires.tv_sec = (x + i) / NSEC;
 			bulk[i].expires.tv_nsec = (x + i) % NSEC;
 			iv_timer_register(&bulk[i]);
